@@ -500,7 +500,7 @@ func genericReplay(w *World, o *Obligation, rp *ReplayFile) (src, pkgRel, name s
 		if rn == "" || rn == "_" {
 			rn = "verifrecv"
 		}
-		decls = append(decls, fmt.Sprintf("%s := %s", rn, g.literal(r.Name(), r.Type(), 0)))
+		decls = append(decls, fmt.Sprintf("var %s %s = %s", rn, g.typeStr(r.Type()), g.literal(r.Name(), r.Type(), 0)))
 		g.env[rn] = rval{rn, r.Type()}
 		g.env["self"] = rval{rn, r.Type()}
 		recvExpr = rn + "."
@@ -512,7 +512,11 @@ func genericReplay(w *World, o *Obligation, rp *ReplayFile) (src, pkgRel, name s
 			decls = append(decls, n+" := context.Background()")
 			g.helpers["context"] = true
 		} else {
-			decls = append(decls, fmt.Sprintf("%s := %s", n, g.literal(v.Name(), v.Type(), 0)))
+			T := v.Type()
+			if sig.Variadic() && i == sig.Params().Len()-1 {
+				// the variadic parameter is declared as the slice it is inside the function
+			}
+			decls = append(decls, fmt.Sprintf("var %s %s = %s", n, g.typeStr(T), g.literal(v.Name(), T, 0)))
 		}
 		g.env[n] = rval{n, v.Type()}
 		if sig.Variadic() && i == sig.Params().Len()-1 {
